@@ -295,3 +295,382 @@ def catalog_listing_unfiltered(prog, cg, eff, chk, rid):
     if n < 1:
         raise AnalysisBroken('catalog-listing rule: no sqlite_master listing found in schema_validate_utils')
     return n
+
+
+# ---- pointers into growable containers stay fresh ------------------------------------------------------
+_INVALIDATORS = ('resize', 'reserve', 'push_back', 'emplace_back', 'insert', 'emplace', 'assign', 'clear',
+                 'shrink_to_fit', 'erase', 'pop_back', 'swap', 'append')
+_DERIVERS = ('data', 'begin', 'end', 'cbegin', 'cend', 'c_str', 'front', 'back')
+
+
+def pointers_fresh(prog, chk, rid, funcs, floor_note=''):
+    """A raw pointer / iterator taken from a growable container (`v.data()`, `&v[i]`, `v.begin()`), kept in a
+    local or in a member of a local struct (`strm.next_out`), must not be used after an operation that may
+    reallocate the container (resize, reserve, push_back, insert, assign, ...) unless it was taken again in
+    between: the old storage is freed.  Decided per function on the structured AST (branches merged, loop
+    bodies taken twice, states of break / continue / return / throw kept apart); `use` is any read of the
+    variable, and for a struct member any call that is handed the struct or its address."""
+    from .. import guards
+    ninst = 0
+    for f in funcs:
+        if f.body is None or f.is_pattern:
+            continue
+        vecs = {}
+        for x in list(f.params) + [y for y in walk(f.body) if y.get('kind') == 'VarDecl']:
+            t = x.get('type') or ''
+            if ('vector<' in t or 'basic_string<' in t or t.startswith('std::string')) and not t.lstrip().startswith('const') \
+                    and '*' not in t:
+                vecs['#%s:%s' % (x.get('id'), x.get('name'))] = x
+        if not vecs:
+            continue
+        short = '::'.join((f.qualname or '').split('::')[-2:])
+        reports = {}
+        derived_sites = {}
+
+        def container_of(e):
+            """canonical path of the container an address-ish expression is taken from, or None"""
+            for y in walk(e):
+                y2 = y
+                if y2.get('kind') == 'CXXMemberCallExpr':
+                    callee = strip(children(y2)[0])
+                    if callee.get('name') in _DERIVERS and children(callee):
+                        b = guards.canon(children(callee)[0])
+                        if b in vecs:
+                            return b
+                if y2.get('kind') == 'UnaryOperator' and y2.get('opcode') == '&':
+                    z = strip(children(y2)[0], explicit=True)
+                    if z.get('kind') == 'CXXOperatorCallExpr':
+                        c = children(z)
+                        if (strip(c[0]).get('referencedDecl') or {}).get('name') == 'operator[]' and len(c) > 2:
+                            b = guards.canon(c[1])
+                            if b in vecs:
+                                return b
+            return None
+
+        def is_ptr_target(lhs):
+            t = (strip(lhs).get('type') or '')
+            return '*' in t or 'iterator' in t or '__normal_iterator' in t
+
+        def expr(e, st):
+            """process an expression in (approximate) evaluation order; st: key -> [container, stale, site]"""
+            k = e.get('kind')
+            c = children(e)
+            if k == 'LambdaExpr':
+                return
+            if k in ('BinaryOperator', 'CompoundAssignOperator') and e.get('opcode') == '=' and len(c) == 2:
+                expr(c[1], st)
+                assign(c[0], c[1], st, e)
+                return
+            if k == 'CXXOperatorCallExpr' and len(c) == 3 and \
+                    (strip(c[0]).get('referencedDecl') or {}).get('name') == 'operator=':
+                expr(c[2], st)
+                b = guards.canon(c[1])
+                if b in vecs:
+                    invalidate(b, st)
+                else:
+                    assign(c[1], c[2], st, e)
+                return
+            if k == 'CXXMemberCallExpr' and c:
+                callee = strip(c[0])
+                if callee.get('name') in _INVALIDATORS and children(callee):
+                    b = guards.canon(children(callee)[0])
+                    for a in c[1:]:
+                        expr(a, st)
+                    if b in vecs:
+                        invalidate(b, st)
+                        return
+            if k == 'CallExpr':
+                for a in c[1:]:
+                    expr(a, st)
+                    z = strip(a, explicit=True)
+                    if z.get('kind') == 'UnaryOperator' and z.get('opcode') == '&':
+                        z = strip(children(z)[0], explicit=True)
+                    p = guards.canon(z) if z.get('kind') in ('DeclRefExpr', 'MemberExpr') else None
+                    if p:
+                        for key, v in st.items():
+                            if key.startswith(p + '.') and v[1]:
+                                use(key, v, e)
+                return
+            if k in ('DeclRefExpr', 'MemberExpr'):
+                p = guards.canon(e)
+                if p in st and st[p][1]:
+                    use(p, st[p], e)
+                if k == 'DeclRefExpr':
+                    return
+            for y in c:
+                expr(y, st)
+
+        def use(key, v, node):
+            reports.setdefault((key, v[2]), (node, v))
+
+        def invalidate(b, st):
+            for key, v in st.items():
+                if v[0] == b:
+                    v[1] = True
+
+        def assign(lhs, rhs, st, node):
+            p = guards.canon(lhs)
+            if p is None:
+                expr(lhs, st)
+                return
+            b = container_of(rhs)
+            if b is not None and is_ptr_target(lhs):
+                st[p] = [b, False, locstr(node)]
+                derived_sites[(p, locstr(node))] = b
+                return
+            # a pointer computed from another tracked pointer inherits its container and state
+            for y in walk(rhs):
+                if y.get('kind') in ('DeclRefExpr', 'MemberExpr'):
+                    q = guards.canon(y)
+                    if q in st and is_ptr_target(lhs) and q != p:
+                        st[p] = [st[q][0], st[q][1], st[q][2]]
+                        return
+            if p in st:
+                del st[p]
+
+        def merge(states):
+            states = [s for s in states if s is not None]
+            if not states:
+                return None
+            out = {}
+            for s in states:
+                for key, v in s.items():
+                    if key in out:
+                        out[key][1] = out[key][1] or v[1]
+                    else:
+                        out[key] = list(v)
+            return out
+
+        def copy(st):
+            return {k_: list(v_) for k_, v_ in st.items()}
+
+        def stmt(n, st, loop):
+            """-> state after n, or None when control does not continue behind it"""
+            if st is None or n is None:
+                return st
+            k = n.get('kind')
+            c = children(n)
+            if k == 'CompoundStmt':
+                for y in c:
+                    st = stmt(y, st, loop)
+                    if st is None:
+                        return None
+                return st
+            if k == 'DeclStmt':
+                for d in c:
+                    if d.get('kind') == 'VarDecl':
+                        init = [y for y in children(d) if not y['kind'].endswith('Attr')]
+                        if init:
+                            expr(init[-1], st)
+                            b = container_of(init[-1])
+                            t = d.get('type') or ''
+                            key = '#%s:%s' % (d.get('id'), d.get('name'))
+                            if b is not None and ('*' in t or 'iterator' in t or t == 'auto'):
+                                st[key] = [b, False, locstr(d)]
+                                derived_sites[(key, locstr(d))] = b
+                            else:
+                                for y in walk(init[-1]):
+                                    if y.get('kind') in ('DeclRefExpr', 'MemberExpr'):
+                                        q = guards.canon(y)
+                                        if q in st and ('*' in t or 'iterator' in t):
+                                            st[key] = list(st[q])
+                                            break
+                return st
+            if k == 'IfStmt':
+                cs = [y for y in c]
+                cond = cs[0] if cs else None
+                # (init statements / condition variables are rare here; treat every non-branch child as condition)
+                branches = cs[1:]
+                if cond is not None:
+                    expr(cond, st)
+                a = stmt(branches[0], copy(st), loop) if branches else st
+                b = stmt(branches[1], copy(st), loop) if len(branches) > 1 else copy(st)
+                return merge([a, b])
+            if k in ('WhileStmt', 'DoStmt', 'ForStmt', 'CXXForRangeStmt'):
+                ctx = {'break': [], 'continue': []}
+                body = c[-1] if k != 'DoStmt' else c[0]
+                others = [y for y in c if y is not body]
+                cur = st
+                for _ in range(2):
+                    if k != 'DoStmt':
+                        for y in others[:-1] if k == 'ForStmt' else others:
+                            if y.get('kind'):
+                                cur = stmt(y, cur, loop) if y.get('kind', '').endswith('Stmt') else (expr(y, cur) or cur)
+                    after = stmt(body, copy(cur), ctx)
+                    after = merge([after] + ctx['continue'])
+                    ctx['continue'] = []
+                    if after is None:
+                        break
+                    if k == 'ForStmt' and others and others[-1].get('kind'):
+                        expr(others[-1], after)
+                    if k == 'DoStmt':
+                        for y in others:
+                            if y.get('kind'):
+                                expr(y, after)
+                    cur = merge([cur, after])
+                return merge([cur] + ctx['break'])
+            if k == 'BreakStmt':
+                if loop is not None:
+                    loop['break'].append(copy(st))
+                return None
+            if k == 'ContinueStmt':
+                if loop is not None:
+                    loop['continue'].append(copy(st))
+                return None
+            if k == 'ReturnStmt':
+                for y in c:
+                    expr(y, st)
+                return None
+            if k == 'SwitchStmt':
+                if c:
+                    expr(c[0], st)
+                ctx = {'break': [], 'continue': loop['continue'] if loop else []}
+                outs = []
+                body = c[-1]
+                cur = None
+                for y in children(body) if body.get('kind') == 'CompoundStmt' else [body]:
+                    z = y
+                    entered = False
+                    while z.get('kind') in ('CaseStmt', 'DefaultStmt'):
+                        entered = True
+                        z = children(z)[-1]
+                    if entered:
+                        cur = merge([cur, copy(st)])
+                    if cur is not None:
+                        cur = stmt(z, cur, ctx)
+                return merge([cur, copy(st)] + ctx['break'])
+            if k == 'CXXTryStmt':
+                a = stmt(c[0], copy(st), loop)
+                outs = [a]
+                for h in c[1:]:
+                    hb = children(h)[-1] if children(h) else None
+                    outs.append(stmt(hb, copy(st), loop))
+                return merge(outs)
+            if k in ('CaseStmt', 'DefaultStmt', 'LabelStmt', 'AttributedStmt'):
+                return stmt(c[-1], st, loop) if c else st
+            if k == 'NullStmt':
+                return st
+            # expression statement
+            thrown = any(y.get('kind') == 'CXXThrowExpr' for y in walk(n)) and strip(n).get('kind') in (
+                'CXXThrowExpr', 'ExprWithCleanups')
+            expr(n, st)
+            return None if thrown and strip(n, explicit=True).get('kind') == 'CXXThrowExpr' or \
+                (n.get('kind') == 'ExprWithCleanups' and c and strip(c[0], explicit=True).get('kind') == 'CXXThrowExpr') \
+                else st
+
+        stmt(f.body, {}, None)
+        for (key, site), b in sorted(derived_sites.items()):
+            ninst += 1
+            hit = reports.get((key, site))
+            name = key.split(':', 1)[-1]
+            inst = '%s: %s (taken from %s at %s)' % (short, name, b.split(':', 1)[-1], site)
+            if hit is None:
+                chk.ok(rid, inst + ' is never used after the container may have been reallocated', site)
+            else:
+                node, v = hit
+                chk.violation(rid, '%s|%s used after %s may have been reallocated' % (short, name, b.split(':', 1)[-1]),
+                              locstr(node),
+                              '%s: used at %s after an operation that may reallocate %s (resize / insert / push_back ...) '
+                              'without being taken again: the old storage is freed, the access is a use after free' % (
+                                  inst, locstr(node), b.split(':', 1)[-1]))
+        if derived_sites:
+            chk.analysed(f)
+    return ninst
+
+
+def inflated_length_is_result_length(prog, chk, rid):
+    """The decompressor returns exactly the bytes inflate() produced: in every repository function that calls
+    inflate(), some operation that sizes the returned vector (resize / insert / assign / append / push_back) is
+    computed from the stream's output counters (`avail_out`, `total_out`, through locals), or a test of those
+    counters guards a throw.  A result sized only from the length prefix of the blob has as many bytes as the
+    prefix announces, whatever the stream holds: a foreign blob with an over-stated prefix grows a zero tail that
+    is kept as trailing data and written back on every re-encode."""
+    n = 0
+    for f in prog.functions.values():
+        if f.body is None or f.is_pattern or not prog.in_repo(f.file):
+            continue
+        calls = [x for x in walk(f.body) if x.get('kind') == 'CallExpr' and
+                 (strip(children(x)[0]).get('referencedDecl') or {}).get('name') == 'inflate']
+        if not calls:
+            continue
+        n += 1
+        chk.analysed(f)
+        sids = {x['id'] for x in walk(f.body) if x.get('kind') == 'VarDecl' and 'z_stream' in (x.get('type') or '')}
+        sids |= {p['id'] for p in f.params if 'z_stream' in (p.get('type') or '')}
+        defs = {}
+        for x in walk(f.body):
+            k = x.get('kind')
+            if k == 'VarDecl':
+                init = [y for y in children(x) if not y['kind'].endswith('Attr')]
+                if init:
+                    defs.setdefault(x['id'], []).append(init[-1])
+            elif k in ('BinaryOperator', 'CompoundAssignOperator') and (x.get('opcode') or '').endswith('=') \
+                    and x.get('opcode') not in ('==', '!=', '<=', '>='):
+                l = strip(children(x)[0], explicit=True)
+                if l.get('kind') == 'DeclRefExpr':
+                    defs.setdefault(l['referencedDecl']['id'], []).append(children(x)[1])
+
+        def from_counters(e, seen=None):
+            seen = seen if seen is not None else set()
+            for y in walk(e):
+                if y.get('kind') == 'MemberExpr' and y.get('name') in ('avail_out', 'total_out') and children(y):
+                    b = strip(children(y)[0], explicit=True)
+                    while b.get('kind') in ('UnaryOperator', 'ParenExpr') and children(b):
+                        b = strip(children(b)[0], explicit=True)
+                    if b.get('kind') == 'DeclRefExpr' and (b.get('referencedDecl') or {}).get('id') in sids:
+                        return True
+                if y.get('kind') == 'DeclRefExpr':
+                    i = (y.get('referencedDecl') or {}).get('id')
+                    if i in defs and i not in seen:
+                        seen.add(i)
+                        if any(from_counters(d, seen) for d in defs[i]):
+                            return True
+            return False
+
+        sizing = []
+        for x in walk(f.body):
+            if x.get('kind') == 'CXXMemberCallExpr' and children(x):
+                callee = strip(children(x)[0])
+                if callee.get('name') in ('resize', 'insert', 'assign', 'append', 'push_back', 'emplace_back') and \
+                        children(callee) and 'vector<' in (strip(children(callee)[0]).get('type') or ''):
+                    sizing.append((x, any(from_counters(a) for a in children(x)[1:])))
+        guarded = False
+        for x in walk(f.body):
+            if x.get('kind') == 'IfStmt' and len(children(x)) >= 2 and from_counters(children(x)[0]) and \
+                    any(y.get('kind') == 'CXXThrowExpr' for y in walk(children(x)[1])):
+                guarded = True
+        short = '::'.join((f.qualname or '').split('::')[-2:])
+        inst = '%s: %d operation(s) size the result' % (short, len(sizing))
+        if any(dep for _, dep in sizing):
+            chk.ok(rid, inst + ', at least one from the stream\'s output counters', locstr(f.node))
+        elif guarded:
+            chk.ok(rid, inst + '; a test of the stream\'s output counters guards a throw', locstr(f.node))
+        else:
+            at = locstr(sizing[0][0]) if sizing else locstr(f.node)
+            chk.violation(rid, '%s|result length not taken from inflate' % short, at,
+                          '%s, none of them computed from avail_out / total_out, and no test of those counters rejects a '
+                          'mismatch: the length of the decompressed payload is whatever the length prefix says, not what '
+                          'the stream holds' % inst)
+    if n == 0:
+        chk.fail_broken('%s: no repository function calls inflate()' % rid)
+    return n
+
+
+def primitives_exact(prog, chk, rid):
+    """Rule L1 of C02 under another property: every fixed-width primitive places byte i at the bit position its
+    byte order prescribes, composes 64-bit values from two 32-bit halves (shifts 0 and 32, no sign extension of
+    the low half), carries doubles bit-exactly and advances by its width."""
+    from .. import codec
+    facts = codec.primitive_facts(prog)
+    for name, (ok, why, *rest) in facts.items():
+        f = rest[0] if rest else None
+        loc = locstr(f.node) if f is not None else name
+        if f is not None:
+            chk.analysed(f)
+        if ok is None:
+            chk.unknown(rid, name, why)
+        elif ok:
+            chk.ok(rid, name, loc, detail=why)
+        else:
+            chk.violation(rid, 'primitive|%s' % name, loc, '%s: %s' % (name, why))
+    return len(facts)
